@@ -111,22 +111,22 @@ Definition fun_sets_sort_key (st : state) (f : str) : bool :=
   | _, _, _ => false
   end.
 
-Fixpoint typecheck (cmds : list command) (st : state) (rd keyed : bool) (s : list aval) : option (list aval) :=
+Fixpoint typecheck (tys : list str) (cmds : list command) (st : state) (rd keyed : bool) (s : list aval) : option (list aval) :=
   match cmds with
   | [] => Some s
   | Cmd name args :: rest =>
     let n := lower name in
     if is_decl n then
       match run_command no_fmt no_cw 0 st (Cmd name args) with
-      | Ok st' => typecheck rest st' rd keyed s
+      | Ok st' => typecheck tys rest st' rd keyed s
       | _ => None
       end
     else if str_eqb n nm_execute then
       match args with
       | [[IId f]] =>
         if ctx_ok (st_vars st) then
-          match check (st_vars st) false 400 s [IId f] with
-          | Some s' => typecheck rest st rd keyed s'
+          match check (st_vars st) false tys 400 s [IId f] with
+          | Some s' => typecheck tys rest st rd keyed s'
           | None => None
           end
         else None
@@ -136,18 +136,18 @@ Fixpoint typecheck (cmds : list command) (st : state) (rd keyed : bool) (s : lis
       match args with
       | [[IId f]] =>
         if ctx_ok (st_vars st) && rd then
-          match check (st_vars st) true 400 (map weaken s) [IId f] with
-          | Some s' => if stack_eqb s' s then typecheck rest st rd (keyed || fun_sets_sort_key st f) (map weaken s) else None
+          match check (st_vars st) true tys 400 (map weaken s) [IId f] with
+          | Some s' => if stack_eqb s' s then typecheck tys rest st rd (keyed || fun_sets_sort_key st f) (map weaken s) else None
           | None => None
           end
         else None
       | _ => None
       end
     else if str_eqb n nm_read then
-      match args with [] => if rd then None else typecheck rest st true false s | _ => None end
+      match args with [] => if rd then None else typecheck tys rest st true false s | _ => None end
     else if str_eqb n nm_sort then
       (* every citation needs a sort.key$: accepted after an ITERATE / REVERSE of a function that assigns it *)
-      match args with [] => if keyed then typecheck rest st rd keyed s else None | _ => None end
+      match args with [] => if keyed then typecheck tys rest st rd keyed s else None | _ => None end
     else None
   end.
 
@@ -198,7 +198,7 @@ Definition dispatch (fn : Z) (a : sexp) : sexp :=
   | 2%Z =>
     let cmds := d_list d_command (d_nth a 0) in
     let st0 := initial_state [] [] in
-    (match typecheck cmds st0 false false [] with
+    (match typecheck (d_list d_str (d_nth a 1)) cmds st0 false false [] with
      | Some s => L [A 1%Z; e_nat (length s)]
      | None => L [A 0%Z]
      end)
